@@ -67,6 +67,11 @@ claim('C10', 'Hypothesis over an argument table of every public numqi.random fun
       'numqi.random noise operations; the other seed-taking APIs (measure, Circuit.measure, CliffordCircuit, minimize, minimize_adam, get_purification, CHA solver) are treated the same way.',
       'trusted: numpy linear algebra in the predicates; distribution quality not claimed; CHA SolverError counted inconclusive')
 
+claim('C15', 'Hypothesis Euler angles with exact / near gimbal-lock classes, quadrant grid, mixed batches, Haar rotations, spins j2<=10 + enumeration of J operators and CG pairs; oracle: matrix-level round trips, homomorphism identities, own ladder-operator exponentials, su(2) relations',
+      'Rotation matrices are built by vf with exact zeros in the degenerate classes (beta = 0, pi) and in a near-degenerate band, alone and mixed into batches; extraction + rebuild must return the matrix '
+      '(SU(2) up to sign); su2_to_so3 is checked as the two-to-one homomorphism through U sigma U^dagger; D^j against exp(-i a Jz) exp(-i b Jy) exp(-i g Jz); CG through orthogonality and intertwining.',
+      'trusted: vf spin_ops (textbook ladder formulas), numpy eigh-based exponentials; tolerance 5e-6 on round trips (gimbal threshold 1e-7 inherent)')
+
 NOT_YET = 'check not built yet in this session (work in progress; see DESIGN.md section 4 for the planned generator and oracle)'
 
 ALL = [f'C{i:02d}' for i in range(1, 21)]
